@@ -235,8 +235,30 @@ fn run_prop(prop: &'static str, thorough: bool) -> Part {
     let cases = std::env::var("FG_CASES").ok().and_then(|s| s.parse().ok()).unwrap_or_else(|| cases_for(prop, thorough));
     if SINGLE.contains(&prop) {
         let mut part = Part::new(single::rule_for(prop));
+        // exhaustive small-scope tier: every schedule of every option combination on tiny graphs
+        {
+            let max_n: usize = std::env::var("FG_EXHAUST_N").ok().and_then(|s| s.parse().ok()).unwrap_or(if thorough { 3 } else { 2 });
+            let t = Instant::now();
+            let ex = fgverif::exhaust::exhaustive_schedules(prop, max_n, 1, workers as usize);
+            part.exhaustive.push(json!({"description": ex.description, "configurations": ex.configs, "runs": ex.runs, "nontrivial": ex.nontrivial, "complete": ex.complete, "deepest_schedule": ex.max_depth, "wall_s": t.elapsed().as_secs_f64()}));
+            part.stats.evaluations += ex.runs;
+            part.stats.executions += ex.runs;
+            part.extra_samples.extend(ex.samples);
+            if let Some((v, dec)) = ex.violation {
+                let f = Failure { check: format!("exhaustive-schedules:{prop}"), violation: v.clone(), tapes: vec![], decoded: dec };
+                let p = write_replay(prop, &f);
+                part.violations.push((v, p));
+            }
+        }
         let check = SingleCheck::new(prop, thorough);
         part.add_search(prop, &check, cases, workers, &known);
+        if prop == "C05" && !INTR {
+            // supplementary real-thread tier: FnRefs dropped on other threads
+            let tc = fgverif::threads::ThreadStreamCheck::new();
+            let n = std::env::var("FG_THREAD_CASES").ok().and_then(|s| s.parse().ok()).unwrap_or(if thorough { 60_000 } else { 6_000 });
+            part.add_search(prop, &tc, n, workers.min(8), &known);
+            part.notes.push(fgverif::threads::THREAD_STREAM_RULE.into());
+        }
         part.assumptions = vec![
             "schedules are explored at poll granularity: each poll of the library runs atomically (single-threaded controlled executor)".into(),
             "user futures are gates released by the explorer; wake-ups are observed through the harness's own waker".into(),
@@ -257,7 +279,13 @@ fn run_prop(prop: &'static str, thorough: bool) -> Part {
             let mut part = Part::new(multi::MULTI_RULE);
             let check = MultiCheck::new(thorough);
             part.add_search(prop, &check, cases, workers, &known);
-            part.assumptions = vec!["interleavings are at poll granularity in one OS thread; each run has its own waker (separate tasks) or all runs are polled together (one task)".into()];
+            if !INTR {
+                let tc = fgverif::threads::ThreadMultiCheck::new();
+                let n = std::env::var("FG_THREAD_CASES").ok().and_then(|s| s.parse().ok()).unwrap_or(if thorough { 60_000 } else { 6_000 });
+                part.add_search(prop, &tc, n, workers.min(8), &known);
+                part.notes.push(fgverif::threads::THREAD_MULTI_RULE.into());
+            }
+            part.assumptions = vec!["interleavings are at poll granularity in one OS thread; each run has its own waker (separate tasks) or all runs are polled together (one task); a supplementary tier runs two controlled runs on two OS threads".into()];
             part
         }
         "C16" => {
@@ -297,7 +325,7 @@ fn run_prop(prop: &'static str, thorough: bool) -> Part {
                 for h in &fam.nontrivial_hashes {
                     part.stats.nontrivial.insert(*h);
                 }
-                part.engines.push(json!({"engine": "generated graph families (complete / layered-complete / dense random DAGs, random insertion order), increasing size, stop at first violation", "instances": fam.instances, "max_n": fam.max_n, "max_root_paths": fam.max_paths.to_string(), "wall_s": t.elapsed().as_secs_f64()}));
+                part.engines.push(json!({"engine": "generated graph families (complete / layered-complete / dense random DAGs, random insertion order), increasing size, stop at first violation", "instances": fam.instances, "max_n": fam.max_n, "max_root_paths": fam.max_paths.to_string(), "max_build_cpu_s": fam.max_build_cpu_s, "build_cpu_budget_s": c18::BUILD_CPU_BUDGET_S, "wall_s": t.elapsed().as_secs_f64()}));
                 if let Some((v, case)) = fam.violation {
                     let f = Failure { check: "families:C18".into(), violation: v.clone(), tapes: vec![], decoded: builder::build_decoded(&case) };
                     let p = write_replay(prop, &f);
@@ -344,6 +372,7 @@ fn run_prop(prop: &'static str, thorough: bool) -> Part {
             ];
             if prop == "C18" {
                 part.assumptions.push("work is observed through the verif_hooks visit counter of RankCalc and through the number of data-access queries on the harness's function type".into());
+                part.assumptions.push(format!("hook-free complement: thread CPU time of build() on the family instances, budget {} s per build (instances sorted by explosiveness, walk stops at the first one over budget); this is the only place where time is an oracle, it is CPU time, and the margin to the repaired tree is >= 100x", c18::BUILD_CPU_BUDGET_S));
             }
             part
         }
@@ -570,17 +599,20 @@ fn cmd_fuzz_replay(target: &str, prop: &'static str, artifact: &str) -> i32 {
         return 2;
     };
     let known = Findings::load(&verif_dir());
-    let rep = fgverif::fuzzing::run_bytes(target, prop, &data, true);
+    let (check, k) = fgverif::fuzzing::check_for(target, prop);
+    let tapes = fgverif::tape::tapes_from_bytes(&data, k);
+    let kf = |v: &Violation, d: &Value| known.classify(prop, v, d);
+    let tapes = fgverif::driver::shrink_tapes(check.as_ref(), prop, tapes, &kf, 4000);
+    let rep = check.run_case(&tapes, true);
     let dec = rep.decoded.clone().unwrap_or(Value::Null);
     for v in rep.violations.iter().filter(|v| v.prop == prop) {
         if known.classify(prop, v, &dec).is_some() {
             continue;
         }
-        let (_, k) = fgverif::fuzzing::check_for(target, prop);
         let f = Failure {
             check: format!("libfuzzer:{target}:{prop}"),
             violation: v.clone(),
-            tapes: fgverif::tape::tapes_from_bytes(&data, k),
+            tapes: tapes.clone(),
             decoded: dec.clone(),
         };
         let path = write_replay(prop, &f);
